@@ -47,6 +47,8 @@ func Apalache(module, init, inv string, length int, subst [2]string, timeout tim
 	cmd := exec.CommandContext(ctx, "apalache-mc", "check", "--init="+init, "--inv="+inv, fmt.Sprintf("--length=%d", length),
 		"--out-dir="+filepath.Join(dir, "out"), module+".tla")
 	cmd.Dir = dir
+	// Apalache's parser unpacks the standard modules into java.io.tmpdir: keep that inside the scratch directory
+	cmd.Env = append(os.Environ(), "JAVA_IO_TMPDIR="+dir, "TMPDIR="+dir)
 	var buf bytes.Buffer
 	cmd.Stdout, cmd.Stderr = &buf, &buf
 	runErr := cmd.Run()
